@@ -455,6 +455,9 @@ def run(ctx, prop):
                 ctx.record(dict(case=ci, malformed=kind), True, ["malformed=" + kind])
     finally:
         shutil.rmtree(work, ignore_errors=True)
+    if prop == "C01":
+        try: batch_stream(ctx, work + "_batch", rng)
+        finally: shutil.rmtree(work + "_batch", ignore_errors=True)
     if prop == "C03":
         try: dict_stream(ctx, work + "_dict", rng)
         finally: shutil.rmtree(work + "_dict", ignore_errors=True)
@@ -494,6 +497,49 @@ RULE = ("document sets are serialisations of random abstract graphs (1-3 namespa
         "order, shuffled NamespaceUris, random file names), with and without caller namespace lists, plus one malformed variant per second case. Distinct by SHA-256; non-trivial "
         "when several files with permuted URI tables, values or a caller list are involved.")
 
+
+NODE_CLASSES = ["UAObjectType", "UAObject", "UAVariableType", "UAVariable", "UADataType", "UAReferenceType", "UAView", "UAMethod"]
+def batch_stream(ctx, work, rng):
+    """the event loop of iterparse_xml against coq/M_Iter.v: the same start/end events (delivered by lxml for the same file and the same tag filter) are
+    given to the model, and the sizes of the batches the implementation hands to process_elem_batch are compared with the model's, for several batch sizes"""
+    import lxml.etree as ET
+    from opcua_tools import nodeset_parser as NP
+    uax = "{http://opcfoundation.org/UA/2011/03/UANodeSet.xsd}"
+    tags = [uax + t for t in ["UANodeSet"] + NODE_CLASSES + ["NamespaceUris", "Uri", "Model", "RequiredModel", "Alias"]]
+    reqs = []; meta = []
+    for ci in range(6 if ctx.quick() else 60):
+        g, ds = make_case(rng, True, size=rng.randint(40, 70) if ci == 0 else None)
+        files, _ = render_set(ds, rng)
+        shutil.rmtree(work, ignore_errors=True); os.makedirs(work)
+        for n, t in files:
+            pth = os.path.join(work, n); open(pth, "w", encoding="utf-8").write(t)
+            try: evs = [[e == "end", "node" if ET.QName(el).localname in NODE_CLASSES else ET.QName(el).localname] for e, el in ET.iterparse(pth, events=("start", "end"), tag=tags)]
+            except ET.XMLSyntaxError: continue
+            # counted events up to the end of the first node: a batch size below that would make the first batch empty, which process_elem_batch does not survive
+            counted = 0; first = None
+            for is_end, k in evs:
+                if k == "Model" or (k == "RequiredModel" and not is_end): continue
+                counted += 1
+                if k == "node" and is_end: first = counted; break
+            if first is None: continue
+            for bs in sorted({first, first + 1, first + 2, first + 5, 2 * first + 3, max(32, first), 100000}):
+                calls = []; orig = NP.process_elem_batch
+                def wrap(elems, *a, **k_):
+                    calls.append(len(elems)); return orig(elems, *a, **k_)
+                NP.process_elem_batch = wrap
+                try:
+                    try: r = NP.iterparse_xml(pth, [UA] + list(g.uris), bs); out = ["ok", list(calls), len(r["nodes"])]
+                    except BaseException as e: out = ["err", type(e).__name__]
+                finally: NP.process_elem_batch = orig
+                reqs.append([Sym("iter_batches"), bs, evs]); meta.append((ci, n, bs, out, sum(1 for is_end, k in evs if k == "node" and is_end)))
+                ctx.record(dict(kind="batches", case=ci, file=n, batch=bs, events=len(evs)), bs < len(evs), ["batches", "cut" if bs < len(evs) else "single-batch"])
+    ans = vlib.run_model(reqs)
+    for (ci, n, bs, out, n_nodes), a in zip(meta, ans):
+        mo = [int(x) for x in vlib.untext(a)]
+        if out[0] != "ok": ctx.disagree("batches", dict(case=ci, file=n, batch=bs), out, ["ok", mo]); continue
+        if out[1] != mo: ctx.disagree("batches", dict(case=ci, file=n, batch=bs), out[1], mo)
+        if sum(out[1]) != n_nodes or out[2] != n_nodes:
+            ctx.fail("C01/batches", dict(kind="batches", file=n, batch=bs), "%d node elements, batches of %r, %d rows" % (n_nodes, out[1], out[2]))
 
 def dict_graph_fails(work, files, items):
     """UAGraph.from_file_list / from_path with the caller's table given as a dictionary whose entries were inserted in the order of `items`:
